@@ -419,7 +419,7 @@ async fn do_round(engine: &Arc<Engine<MemCfg>>, sh: &Arc<Shared>, seq: &[u32], t
 fn run_spec_inner(spec: &Spec, sink: Option<Arc<TraceSink>>, sh: Arc<Shared>) -> RunOut {
     // w = 0: a current_thread runtime (the thread of this function is the only one that polls tasks)
     let rt = if spec.w == 0 { tokio::runtime::Builder::new_current_thread().enable_all().build().unwrap() }
-        else { tokio::runtime::Builder::new_multi_thread().worker_threads(spec.w).thread_stack_size(64 << 20).enable_all().build().unwrap() };
+        else { tokio::runtime::Builder::new_multi_thread().worker_threads(spec.w).thread_stack_size(if spec.fam == FAM_WALK { 16 << 20 } else { 64 << 20 }).enable_all().build().unwrap() };
     let spec2 = spec.clone();
     let r = std::panic::catch_unwind(std::panic::AssertUnwindSafe(|| {
         rt.block_on(async move {
@@ -718,7 +718,7 @@ struct MRunOut { rounds: Vec<(Vec<(u32, i64)>, Vec<ExecRecord>)>, overlap: Vec<u
 
 fn run_mspec_inner(spec: &MSpec, sh: Arc<Shared>) -> MRunOut {
     let rt = if spec.w == 0 { tokio::runtime::Builder::new_current_thread().enable_all().build().unwrap() }
-        else { tokio::runtime::Builder::new_multi_thread().worker_threads(spec.w).thread_stack_size(64 << 20).enable_all().build().unwrap() };
+        else { tokio::runtime::Builder::new_multi_thread().worker_threads(spec.w).thread_stack_size(16 << 20).enable_all().build().unwrap() };
     let spec2 = spec.clone();
     let r = std::panic::catch_unwind(std::panic::AssertUnwindSafe(|| {
         rt.block_on(async move {
@@ -1296,7 +1296,7 @@ fn main() {
     let n_walk = flag("--n-walk").and_then(|x| x.parse().ok()).unwrap_or(if thorough { 1500 } else { 140 });
     let walk_reps = if thorough { 15 } else { 3 };
     let keep_going = a.rest.iter().any(|x| x == "--walk-keep-going");
-    let n_me = flag("--n-me").and_then(|x| x.parse().ok()).unwrap_or(if thorough { 2000 } else { 150 });
+    let n_me = flag("--n-me").and_then(|x| x.parse().ok()).unwrap_or(if thorough { 2500 } else { 250 });
     if let Some(ms) = flag("--wall-limit-ms").and_then(|x| x.parse().ok()) { WALL_LIMIT_MS.store(ms, SeqCst); }
     if let Some(rp) = &a.replay {
         let text = std::fs::read_to_string(rp).unwrap();
